@@ -13,6 +13,18 @@ CHECKS = {
         note="Trusts CPython integer arithmetic and the bit-serial reference (anchored to the catalogue check value 0x6F91).",
         design="5/C15",
     ),
+    "C08": dict(
+        technique="reference-model monitor: frame model + OpenSSL AES-CBC opened on every ciphertext the real encryptors emit; hostile frames (wrong marker/CRC/key) offered to the real decryptors",
+        text="Every payload length 0..253 is driven through the real SoftwareCustKeyEncryptor/ConfigSecurityCodeEncryptor; each ciphertext is decrypted by OpenSSL and compared byte for byte with an independently written frame model, unwrapped by the same and by a fresh object, unwrapped under other keys, and model-built frames with wrong marker/CRC are offered to the decryptor. Contents are solved so that each CRC byte takes every value incl. 0x00. Held on the observed cases only.",
+        note="Trusts OpenSSL AES-128-CBC and the frame model written from the property text; 'error' = any exception.",
+        design="5/C08",
+    ),
+    "C16": dict(
+        technique="reference-model monitors: GF(2^8) table definitions (exhaustive), OpenSSL differential monitor for block cipher/modes/feeders under enumerated and random chunkings, call-history monitor for the registered adapter",
+        text="All 14 lookup tables are compared entry by entry with their GF(2^8) definitions (complete). Block cipher, the five modes, the padded feeders and stream helpers are compared with OpenSSL / textbook modes for 16/24/32-byte keys under every composition of short inputs and random chunkings of longer ones; adapter objects are driven through random call histories with every result compared with a stateless zero-padded CBC reference, global state snapshotted before/after.",
+        note="Trusts OpenSSL (anchored to FIPS-197 app. C and SP 800-38A app. F vectors embedded in the check).",
+        design="5/C16",
+    ),
 }
 
 NOT_YET = "check not built yet in this session (see DESIGN.md section 5 for the planned monitor)"
